@@ -4,6 +4,7 @@ pub mod c01;
 pub mod c02;
 pub mod c03;
 pub mod c06;
+pub mod c07;
 pub mod c08;
 pub mod c09;
 pub mod c10;
@@ -21,6 +22,7 @@ pub fn run(ctx: &Ctx) -> Option<CheckOutput> {
 		"C02" => c02::run(ctx),
 		"C03" => c03::run(ctx),
 		"C06" => c06::run(ctx),
+		"C07" => c07::run(ctx),
 		"C08" => c08::run(ctx),
 		"C09" => c09::run(ctx),
 		"C10" => c10::run(ctx),
@@ -52,6 +54,7 @@ pub fn replay_file(path: &str) -> i32 {
 			"C02" => c02::replay(case),
 			"C03" => c03::replay(case),
 			"C06" => c06::replay(case),
+			"C07" => c07::replay(case),
 			"C08" => c08::replay(case),
 			"C09" => c09::replay(case),
 			"C10" => c10::replay(case),
